@@ -25,7 +25,7 @@ ASSUMPTIONS = ['domain as stated by the property: rectangular tables, unique key
                'variable / value field names; fromdicts(dicts(t)) needs >= 1 data row']
 KINDS = ['melt-recast', 'recast-direct', 'melt', 'transpose', 'flatten', 'unflatten-period', 'pivot', 'unpack', 'unpackdict', 'capture', 'split', 'splitdown',
          'dicts-roundtrip', 'columns-roundtrip']
-REQUIRED = (['kind:' + k for k in KINDS] + ['none-key', 'compound-key', 'key-not-leading', 'one-column', 'period=1', 'period=width',
+REQUIRED = (['views-read-twice'] + ['kind:' + k for k in KINDS] + ['none-key', 'compound-key', 'key-not-leading', 'one-column', 'period=1', 'period=width',
             'pivot-missing-pair', 'field-by-index', 'include-original', 'explicit-variables-permuted', 'fromdicts-sample<nrows'])
 VALS = [None, 0, 1, 2.5, 'a', 'b', '', b'x', (1, 2), gen.D(2020, 1, 1), True]
 KEYS = [None, 1, 2, 3, 'a', 'b', b'a', (1, 2), 2.5, gen.D(2020, 1, 1)]
@@ -172,7 +172,7 @@ def judge(case, ctx):
         for r in rows:
             for v in variables:
                 exp_melt.append(tuple(r[i] for i in kidx) + (v, r[hdr.index(v)]))
-        melted = util.attempt_rows(lambda: petl.melt(table, key, **kw))
+        melted = util.attempt_rows_twice(lambda: petl.melt(table, key, **kw))
         d = _diff(melted, exp_melt, 'melt')
         if d:
             return d
@@ -182,7 +182,7 @@ def judge(case, ctx):
             return None
         if not variables:
             return None
-        back = util.attempt_rows(lambda: petl.recast(petl.melt(copy.deepcopy(case['table']), key, **kw), key=key, variablefield=vf, valuefield=valf))
+        back = util.attempt_rows_twice(lambda: petl.recast(petl.melt(copy.deepcopy(case['table']), key, **kw), key=key, variablefield=vf, valuefield=valf))
         svars = sorted(variables)
         exp = [tuple(klist) + tuple(svars)]
         srows = sorted(rows, key=lambda r: util.model_key(tuple(r[i] for i in kidx)))
@@ -244,11 +244,11 @@ def judge(case, ctx):
             kw['reducers'] = red
         if missing is not None:
             kw['missing'] = missing
-        got = util.attempt_rows(lambda: petl.recast(t2, **kw))
+        got = util.attempt_rows_twice(lambda: petl.recast(t2, **kw))
         return _diff(got, exp, 'recast')
 
     if kind == 'transpose':
-        back = util.attempt_rows(lambda: petl.transpose(petl.transpose(table)))
+        back = util.attempt_rows_twice(lambda: petl.transpose(petl.transpose(table)))
         return _diff(back, [tuple(hdr)] + rows, 'transpose(transpose)')
 
     if kind == 'flatten':
@@ -258,7 +258,7 @@ def judge(case, ctx):
             return {'kind': 'exception', 'op': 'flatten', 'detail': flat.text, 'where': flat.where}
         if util.crow(flat) != util.crow([c for r in rows for c in r]):
             return {'kind': 'result-differs', 'op': 'flatten', 'expected': [c for r in rows for c in r], 'observed': flat}
-        back = util.attempt_rows(lambda: petl.unflatten(petl.flatten(copy.deepcopy(case['table'])), w))
+        back = util.attempt_rows_twice(lambda: petl.unflatten(petl.flatten(copy.deepcopy(case['table'])), w))
         ctx.seen('period=width')
         if isinstance(back, util.Raised):
             return {'kind': 'exception', 'op': 'unflatten(flatten)', 'detail': back.text, 'where': back.where}
@@ -279,12 +279,12 @@ def judge(case, ctx):
             chunk = vals[i:i + p]
             exp.append(tuple(chunk) + (missing,) * (p - len(chunk)))
         kw = {'missing': missing} if missing is not None else {}
-        got = util.attempt_rows(lambda: petl.unflatten(list(vals), p, **kw))
+        got = util.attempt_rows_twice(lambda: petl.unflatten(list(vals), p, **kw))
         d = _diff(got, exp, 'unflatten')
         if d:
             return d
         t2 = [['v', 'o']] + [[v, 0] for v in vals]
-        got = util.attempt_rows(lambda: petl.unflatten(t2, 'v', p, **kw))
+        got = util.attempt_rows_twice(lambda: petl.unflatten(t2, 'v', p, **kw))
         return _diff(got, exp, 'unflatten(table, field, period)')
 
     if kind == 'pivot':
@@ -312,7 +312,7 @@ def judge(case, ctx):
                     ctx.seen('pivot-missing-pair')
             exp.append(tuple(o))
         kw = {'missing': missing} if missing is not None else {}
-        got = util.attempt_rows(lambda: petl.pivot(table, 'r', 'c', 'v', agg, **kw))
+        got = util.attempt_rows_twice(lambda: petl.pivot(table, 'r', 'c', 'v', agg, **kw))
         return _diff(got, exp, 'pivot')
 
     if kind in ('unpack', 'unpackdict', 'capture', 'split', 'splitdown'):
@@ -340,7 +340,7 @@ def judge(case, ctx):
             kw = {'include_original': inc}
             if missing is not None:
                 kw['missing'] = missing
-            got = util.attempt_rows(lambda: petl.unpack(table, field, nf_, **kw))
+            got = util.attempt_rows_twice(lambda: petl.unpack(table, field, nf_, **kw))
             return _diff(got, exp, 'unpack', {'field': field})
         if kind == 'unpackdict':
             if isinstance(field, int):
@@ -355,7 +355,7 @@ def judge(case, ctx):
                 kw['keys'] = keys
             if missing is not None:
                 kw['missing'] = missing
-            got = util.attempt_rows(lambda: petl.unpackdict(table, field, **kw))
+            got = util.attempt_rows_twice(lambda: petl.unpackdict(table, field, **kw))
             return _diff(got, exp, 'unpackdict')
         if kind == 'capture':
             prog = re.compile(case['pattern'])
@@ -367,7 +367,7 @@ def judge(case, ctx):
             for r in rows:
                 m = prog.search(r[fi])
                 exp.append(tuple(base(r) + (list(m.groups()) if m else list(fill))))
-            got = util.attempt_rows(lambda: petl.capture(table, field, case['pattern'], names, include_original=inc, fill=fill))
+            got = util.attempt_rows_twice(lambda: petl.capture(table, field, case['pattern'], names, include_original=inc, fill=fill))
             return _diff(got, exp, 'capture', {'field': field, 'include_original': inc})
         if kind == 'split':
             prog = re.compile(case['pattern'])
@@ -375,31 +375,31 @@ def judge(case, ctx):
             exp = [tuple(base_hdr + names)]
             for r in rows:
                 exp.append(tuple(base(r) + prog.split(r[fi], case['maxsplit'])))
-            got = util.attempt_rows(lambda: petl.split(table, field, case['pattern'], case['newfields'], include_original=inc, maxsplit=case['maxsplit']))
+            got = util.attempt_rows_twice(lambda: petl.split(table, field, case['pattern'], case['newfields'], include_original=inc, maxsplit=case['maxsplit']))
             return _diff(got, exp, 'split', {'field': field, 'include_original': inc})
         prog = re.compile(case['pattern'])
         exp = [tuple(hdr)]
         for r in rows:
             for piece in prog.split(r[fi], case['maxsplit']):
                 exp.append(tuple(piece if i == fi else r[i] for i in range(len(hdr))))
-        got = util.attempt_rows(lambda: petl.splitdown(table, field, case['pattern'], maxsplit=case['maxsplit']))
+        got = util.attempt_rows_twice(lambda: petl.splitdown(table, field, case['pattern'], maxsplit=case['maxsplit']))
         return _diff(got, exp, 'splitdown')
 
     if kind == 'dicts-roundtrip':
         if not rows:
             return None
-        got = util.attempt_rows(lambda: petl.fromdicts(petl.dicts(table)))
+        got = util.attempt_rows_twice(lambda: petl.fromdicts(petl.dicts(table)))
         d = _diff(got, [tuple(hdr)] + rows, 'fromdicts(dicts)')
         if d:
             return d
-        got = util.attempt_rows(lambda: petl.fromdicts(list(petl.dicts(copy.deepcopy(case['table']))), header=list(hdr)))
+        got = util.attempt_rows_twice(lambda: petl.fromdicts(list(petl.dicts(copy.deepcopy(case['table']))), header=list(hdr)))
         d = _diff(got, [tuple(hdr)] + rows, 'fromdicts(list(dicts), header)')
         if d:
             return d
         # header discovery samples the first `sample` records: every record carries every field, so any sample >= 1 must do
         for sample in range(1, len(rows) + 2):
             for src in (lambda: list(petl.dicts(copy.deepcopy(case['table']))), lambda: (x for x in list(petl.dicts(copy.deepcopy(case['table']))))):
-                got = util.attempt_rows(lambda: petl.fromdicts(src(), sample=sample))
+                got = util.attempt_rows_twice(lambda: petl.fromdicts(src(), sample=sample))
                 d = _diff(got, [tuple(hdr)] + rows, 'fromdicts(dicts, sample=%d)' % sample)
                 if d:
                     return d
@@ -411,6 +411,6 @@ def judge(case, ctx):
             return {'kind': 'exception', 'op': 'columns', 'detail': cols.text, 'where': cols.where}
         if list(cols.keys()) != list(hdr) or any(util.crow(cols[h]) != util.crow([r[i] for r in rows]) for i, h in enumerate(hdr)):
             return {'kind': 'result-differs', 'op': 'columns', 'observed': dict(cols)}
-        got = util.attempt_rows(lambda: petl.fromcolumns(list(cols.values()), header=list(cols.keys())))
+        got = util.attempt_rows_twice(lambda: petl.fromcolumns(list(cols.values()), header=list(cols.keys())))
         return _diff(got, [tuple(hdr)] + rows, 'fromcolumns(columns)')
     raise KeyError(kind)
